@@ -1,11 +1,15 @@
 import Model.Placement
+import Model.PlacementPol
 import Driver.Util
 namespace Driver.C10
-open Placement
+open Placement PlacementPol
 
-/-- state = the cluster of the last `reset`: the ring (tokenRing.hosts is not consulted by the placement code any more) -/
+/-- state = the cluster of the last `reset`: the ring (tokenRing.hosts is not consulted by the placement code any more);
+after `resetpol`: the universe of host objects and the token-aware policy's metadata state -/
 structure Cl where
   ring : List Entry := []
+  uni : List PHost := []
+  pol : PolState := polInit 9 (fun _ => none)
 
 def init : Cl := {}
 
@@ -67,6 +71,82 @@ def showStrategy : Strategy → String
     "nts " ++ ",".intercalate (items.foldr insStr [])
   | .none_ => "nil"
 
+/-! ### the policy scenario (history of policy events) -/
+
+def parsePHost (s : String) : Option PHost :=
+  match s.splitOn "/" with
+  | [i, a, d, r, ts] => do
+    let id ← i.toNat?
+    let addr ← a.toNat?
+    let dc ← d.toNat?
+    let rack ← r.toNat?
+    let toks ← if ts == "-" then some [] else (ts.splitOn ",").mapM String.toInt?
+    pure { h := { id := id, dc := dc, rack := rack }, addr := addr, toks := toks }
+  | _ => none
+
+def parsePart : String → Option Part
+  | "m" => some .murmur
+  | "r" => some .random
+  | "o" => some .ordered
+  | "k" => some .unknown
+  | "e" => some .unset
+  | _ => none
+
+def showPart : Part → String
+  | .murmur => "m"
+  | .random => "r"
+  | .ordered => "o"
+  | .unknown => "k"
+  | .unset => "e"
+
+/-- schema of a keyspace: `e` unreadable, `u` readable without usable strategy, `s:<rf>`, `n:<dc=rf,…|->` -/
+def parseSchema (s : String) : Option (Option Strat) :=
+  if s == "e" then some none
+  else if s == "u" then some (some .unusable)
+  else if s.startsWith "s:" then (s.drop 2).toString.toNat?.map (fun rf => some (.simple rf))
+  else if s.startsWith "n:" then (parseRfs (s.drop 2).toString).map (fun rfs => some (.nts rfs))
+  else none
+
+def showRingOpt : Option (Part × List Entry) → String
+  | none => "nil"
+  | some (_, []) => "empty"
+  | some (_, l) => ",".intercalate (l.map (fun e => toString e.1 ++ ":" ++ toString e.2.id))
+
+def showEntryOpt : Option (Part × ReplicaRing) → String
+  | none => "absent"
+  | some (_, rr) => showMap rr
+
+/-- canonical dump of what the policy holds: partitioner, own host list, token ring, entries of ks0..ks3 -/
+def dumpPol (s : PolState) : String :=
+  if s.crashed then "crashed" else
+  "part=" ++ showPart s.part ++
+  " hosts=" ++ (if s.hosts.isEmpty then "-" else ",".intercalate (s.hosts.map (fun p => toString p.h.id))) ++
+  " ring=" ++ showRingOpt s.ring ++
+  " k0=" ++ showEntryOpt (s.replicas 0) ++ " k1=" ++ showEntryOpt (s.replicas 1) ++
+  " k2=" ++ showEntryOpt (s.replicas 2) ++ " k3=" ++ showEntryOpt (s.replicas 3)
+
+def uniAt (c : Cl) (w : String) : Option PHost := w.toNat?.bind (fun i => c.uni[i]?)
+
+def parseEvent (c : Cl) : List String → Option PolEvent
+  | ["add", i] => (uniAt c i).map .addHost
+  | ["addmany", l] =>
+    (if l == "-" then some [] else (l.splitOn ",").mapM (uniAt c)).map .addHosts
+  | ["rem", i] => (uniAt c i).map (fun p => .removeHost p.addr)
+  | ["up", i] => (uniAt c i).map (fun p => .hostUp p.addr)
+  | ["down", i] => (uniAt c i).map (fun p => .hostDown p.addr)
+  | ["part", p] => (parsePart p).map .setPartitioner
+  | ["kc", k] => k.toNat?.map .keyspaceChanged
+  | _ => none
+
+def insNat (k : Nat) : List Nat → List Nat
+  | [] => [k]
+  | x :: xs => if k ≤ x then k :: x :: xs else x :: insNat k xs
+
+def showLookup : Lookup → String
+  | .noring => "noring"
+  | .typePanic => "panic:token-type"
+  | .hosts l => showHosts l
+
 /-- ops (stateful; a sequence starts with `reset`):
   reset <part> id/dc/rack/t,t,… …   → the ring `tok:id …` built by newTokenRing (part = partitioner, only used by the harness)
   host t…                            → GetHostForToken per token: `id@tok`
@@ -76,7 +156,16 @@ def showStrategy : Strategy → String
   ssimple rf t…                      → per token the replicas;  model answers with Spec.simple (proved equal)
   snts rfs t…                        → per token the replicas (or crash:<class>); model answers with Spec.nts — for every
                                        ring: vnodes, token-less hosts, datacenters unknown to the ring / to the keyspace
-  strategy <class-hex> k=v…          → getStrategy -/
+  strategy <class-hex> k=v…          → getStrategy
+  resetpol <sessKs> id/addr/dc/rack/t,… …  → new tokenAwareHostPolicy, universe of host objects (index = position), every schema unreadable
+  pev add i | addmany i,j | rem i | up i | down i | part m|r|o|k|e | kc ks   → the policy event, answer = dump of the metadata
+  pfresh                             → the ghost field `fresh` (ties the harness's spec-backed classification to the theorem's hypothesis)
+  psch ks e|u|s:rf|n:dc=rf,…         → the environment: what getKeyspaceMetadata(ks) answers from now on
+  prepl ks t…                        → replicas Pick starts from (spec-backed: Spec.lookup on the current environment)
+  xprepl ks t…                       → the same read from the stored snapshot, with its source (r = replica map, o = owner)
+  ppick ks t…                        → hosts the real Pick offers (ordered partitioner only; every host up and local, the
+                                       fallback policy offers nothing): model = the stored snapshot's replica list
+  spick ks t…                        → the same on a fresh keyspace, spec-backed: answered with Spec.lookup -/
 def step (s : Cl) (ws : List String) : Cl × String :=
   match ws with
   | "reset" :: _ :: hs =>
@@ -119,6 +208,55 @@ def step (s : Cl) (ws : List String) : Cl × String :=
   | "snts" :: rfs :: ts =>
     match parseRfs rfs, ts.mapM String.toInt? with
     | some rfs, some ts => (s, " ".intercalate (ts.map (fun t => showHosts (Spec.nts s.ring rfs t))))
+    | _, _ => (s, "bad-op")
+  -- policy scenario
+  | "resetpol" :: sk :: hs =>
+    match sk.toNat?, hs.mapM parsePHost with
+    | some sk, some l => ({ s with uni := l, pol := polInit sk (fun _ => none) }, "ok")
+    | _, _ => (s, "bad-op")
+  | "pev" :: ev =>
+    match parseEvent s ev with
+    | none => (s, "bad-op")
+    | some e => let p := polStep s.pol e; ({ s with pol := p }, dumpPol p)
+  | ["psch", k, v] =>
+    match k.toNat?, parseSchema v with
+    | some k, some v => ({ s with pol := polStep s.pol (.setSchema k v) }, "ok")
+    | _, _ => (s, "bad-op")
+  | ["pfresh"] =>
+    let l := s.pol.fresh.foldr (fun k acc => insNat k acc) []
+    (s, if l.isEmpty then "-" else ",".intercalate (l.map toString))
+  | "prepl" :: k :: ts =>
+    -- spec-backed: answered from the CURRENT environment only (Spec.lookup), see C10_pick_spec
+    match k.toNat?, ts.mapM String.toInt? with
+    | some k, some ts => (s, " ".intercalate (ts.map (fun t => showLookup (PlacementPol.Spec.lookup s.pol k t))))
+    | _, _ => (s, "bad-op")
+  | "xprepl" :: k :: ts =>
+    -- model-vs-code: what the stored snapshot gives, with the source of the answer
+    match k.toNat?, ts.mapM String.toInt? with
+    | some k, some ts => (s, " ".intercalate (ts.map (fun t =>
+        match polLookup s.pol k t with
+        | .hosts l => (if polLookupSrc s.pol k t then "r" else "o") ++ showHosts l
+        | r => showLookup r)))
+    | _, _ => (s, "bad-op")
+  | "ppick" :: k :: ts =>
+    -- the real Pick (ordered partitioner: token = routing key; every host up and local; fallback offers nothing)
+    match k.toNat?, ts.mapM String.toInt? with
+    | some k, some ts =>
+      (s, if s.pol.part = .ordered then
+            " ".intercalate (ts.map (fun t => match polLookup s.pol k t with
+              | .noring => "[]"
+              | r => showLookup r))
+          else "n/a")
+    | _, _ => (s, "bad-op")
+  | "spick" :: k :: ts =>
+    -- the real Pick on a fresh keyspace (spec-backed): the hosts offered = Spec.lookup on the current environment
+    match k.toNat?, ts.mapM String.toInt? with
+    | some k, some ts =>
+      (s, if s.pol.part = .ordered then
+            " ".intercalate (ts.map (fun t => match PlacementPol.Spec.lookup s.pol k t with
+              | .noring => "[]"
+              | r => showLookup r))
+          else "n/a")
     | _, _ => (s, "bad-op")
   | "strategy" :: cls :: opts =>
     match Util.parseHex cls, opts.mapM parseOpt with
